@@ -399,14 +399,24 @@ def run_static_facts(unit, variant, timeout):
     def fail(msg):
         res.update(status='infra', error=msg, seconds=time.time() - t0)
         return res
-    rc, out, err, dt = run(['g++', '-std=c++17', '-DAMC_NONSTD_FEATURES', '-I' + os.path.join(REPO, 'include'), src, '-o', os.path.join(udir, 'facts')], timeout=300, mem_gb=8)
-    if rc != 0:
-        return fail('the static facts program does not compile against the current headers: ' + (out + err)[-1200:])
-    rc, out, err, dt = run([os.path.join(udir, 'facts')], timeout=60)
-    lines = [l.split() for l in out.strip().split('\n') if l.strip()]
-    if rc != 0 or not lines or any(len(l) != 3 for l in lines):
-        return fail('the static facts program failed (rc=%s)' % rc)
     body = ['void harness(void) {']
+    if src.endswith('.py'):
+        # facts read off the compiler's AST of the real headers by a script: TSV lines 'label <TAB> found <TAB> expected'
+        rc, out, err, dt = run([sys.executable, src, REPO], timeout=300, mem_gb=8)
+        lines = [l.split('\t') for l in out.strip().split('\n') if l.strip()]
+        if rc != 0 or not lines or any(len(l) != 3 or not (l[1].isdigit() and l[2].isdigit()) for l in lines):
+            return fail('the static facts script failed (rc=%s): %s' % (rc, (out + err)[-1200:]))
+        for label, claimed, expected in lines:
+            body.append('  __CPROVER_assert(%s == %s, "%s: %s");' % (claimed, expected, ' '.join(unit['props']), label.replace('"', '').replace('\\', '')))
+        lines = []
+    else:
+        rc, out, err, dt = run(['g++', '-std=c++17', '-DAMC_NONSTD_FEATURES', '-I' + os.path.join(REPO, 'include'), src, '-o', os.path.join(udir, 'facts')], timeout=300, mem_gb=8)
+        if rc != 0:
+            return fail('the static facts program does not compile against the current headers: ' + (out + err)[-1200:])
+        rc, out, err, dt = run([os.path.join(udir, 'facts')], timeout=60)
+        lines = [l.split() for l in out.strip().split('\n') if l.strip()]
+        if rc != 0 or not lines or any(len(l) != 3 for l in lines):
+            return fail('the static facts program failed (rc=%s)' % rc)
     for name, claimed, expected in lines:
         body.append('  __CPROVER_assert(%s == %s, "%s: %s claims to be trivially relocatable exactly when its parts are (claimed %s, parts %s)");' % (
             claimed, expected, ' '.join(unit['props']), name.replace('"', ''), claimed, expected))
